@@ -116,7 +116,7 @@ class C12(Harness):
         if cell["kind"] == "pt":
             c = {"kind": {"interval": "interval-int", "pca": "concatenator", "random-interval": "features", "derivative-slope": "concatenator", "plateau": "sliding"}.get(cell["which"], cell["which"])}
             _c14.HARNESS._tier = "quick"
-            inp = _c14.HARNESS.inputs(ctx, c)
+            inp = _c14.HARNESS._inputs(ctx, c)
             if cell["which"] == "plateau":
                 # (every cell value is compared with the plateau value: one fork per value, so a small panel)
                 if len(inp["x"]) > 2 or len(inp["x"][0][0]) > 3 or inp.get("w", 1) != 1:
